@@ -87,7 +87,7 @@ def vres_term(r):
 
 def tcfg_term(t):
     dfl = C("DConst", t["dflt"][1]) if t["dflt"][0] == "const" else C("DCall", opt(t["dflt"][1]))
-    return C("Build_tcfg", C("KEvent" if t["kind"] == "event" else "KTrait"), bool(t["hv"]),
+    return C("Build_tcfg", C({"event": "KEvent", "prop": "KProp"}.get(t["kind"], "KTrait")), bool(t["hv"]),
              [(a, vres_term(r)) for a, r in t["vld"]], bool(t["orig"]), dfl,
              C({"none": "PNone", "ok": "POk", "raise": "PRaise"}[t["post"]]), bool(t["cmpnone"]),
              [bool(h) for h in t["handlers"]])
@@ -137,7 +137,8 @@ def nontrivial(case, obs):
 
 
 def gen_trait(rnd, ctx, P):
-    kind = "event" if rnd.random() < 0.12 else "trait"
+    x = rnd.random()
+    kind = "event" if x < 0.12 else "prop" if x < 0.30 else "trait"
     hv = rnd.random() < 0.8
     vld = []
     if hv:
@@ -155,7 +156,7 @@ def gen_trait(rnd, ctx, P):
         dflt = ["call", rnd.choice([None] + list(range(P)) + list(range(P)))]
     t = dict(kind=kind, hv=hv, vld=vld, orig=rnd.random() < 0.2, dflt=dflt,
              post=rnd.choice(["none", "none", "ok", "raise"]), cmpnone=rnd.random() < 0.25,
-             handlers=[rnd.random() < 0.35 for _ in range(rnd.choice([0, 0, 1, 2, 3]))])
+             handlers=[] if kind == "prop" else [rnd.random() < 0.35 for _ in range(rnd.choice([0, 0, 1, 2, 3]))])
     ctx.count("trait:%s/validate=%s/post=%s/default=%s%s/handlers=%d%s" % (
         kind, "yes" if hv else "NULL", t["post"], dflt[0], "-raises" if dflt == ["call", None] else "",
         len(t["handlers"]), "/some-raise" if any(t["handlers"]) else ""))
@@ -196,6 +197,14 @@ def corpus():
                         cs.append(dict(pool=4, reraise=reraise, traits=[t], ops=allops))
     cs.append(dict(pool=4, reraise=True, traits=[dict(base, kind="event", handlers=[False, True])],
                    ops=[["set", 0, 0], ["set", 0, 1], ["set", 0, 3], ["get", 0], ["del", 0]]))
+    # property traits: plain and validated (setattr_validate_property), setter storing / dropping / raising,
+    # getter raising
+    for hv in (False, True):
+        for post in ("ok", "none", "raise"):
+            for dflt in (["const", A_NONE], ["call", None]):
+                cs.append(dict(pool=4, reraise=False, traits=[dict(base, kind="prop", hv=hv, post=post, dflt=dflt)],
+                               ops=[["get", 0], ["set", 0, 0], ["get", 0], ["set", 0, 1], ["set", 0, 2], ["set", 0, 3],
+                                    ["get", 0], ["del", 0], ["set", 0, 4], ["set", 0, 0], ["get", 0]]))
     return cs
 
 
@@ -244,7 +253,9 @@ def ledger_stream(ctx, cases, sanitize=False, tag="ledger"):
 # ----------------------------------------------------------------------------------------------
 CT_DRIVER = "c14_ctrait_driver.py"
 CT_CLAUSE = {1: "crash", 2: "index-out-of-table", 3: "copy-pickles-differently", 4: "behaviour-differs",
-             5: "index-not-first-occurrence"}
+             5: "index-not-first-occurrence", 6: "reference-leak"}
+CT_MODES_C18 = ["state", "pickle0", "pickle1", "pickle2", "pickle3", "pickle4", "pickle5", "deepcopy", "clone",
+                "restate"]
 
 
 def _mode_class(m):
@@ -298,7 +309,8 @@ def ctrait_stream(ctx, d, have_gen, sanitize=False, specs=None, modes=None, qnam
     ctx.cov["traces_validated_against_impl"] += len(evaluated)
     label = "trait definition objects round-trip (subprocess%s)" % (", ASan+UBSan" if sanitize else "")
     if have_gen:
-        terms = [(list(r["idx"]), list(r["idx2"]), bool(r["same"]), bool(r.get("crashed"))) for r in evaluated]
+        terms = [(list(r["idx"]), list(r["idx2"]), bool(r["same"]), bool(r.get("crashed")), bool(r.get("rc_ok", True)))
+                 for r in evaluated]
         hdr = ("From Coq Require Import ZArith List.\nFrom TV Require Import Common.Harness Common.CTables.\n"
                "Require Import %s.CTablesGen." % qname)
         try:
@@ -321,22 +333,27 @@ def ctrait_stream(ctx, d, have_gen, sanitize=False, specs=None, modes=None, qnam
                     law.append((i, 3))
                 if not r["same"]:
                     law.append((i, 4))
+                if not r.get("rc_ok", True):
+                    law.append((i, 6))
     by_clause = {}
+    statuses = []
     for i, code in law:
-        by_clause.setdefault(code, []).append(evaluated[i])
-    for code in sorted(by_clause):
-        rs = sorted(by_clause[code], key=lambda r: (r["spec"], r["mode"]))
+        by_clause.setdefault((code, _mode_class(evaluated[i]["mode"])), []).append(evaluated[i])
+    for code, _mc in sorted(by_clause):
+        rs = sorted(by_clause[(code, _mc)], key=lambda r: (r["spec"], r["mode"]))
         r = rs[0]
         key = "ctrait/%s/%s/%s" % (CT_CLAUSE.get(code, code), r["spec"], _mode_class(r["mode"]))
-        ctx.fail(key, "trait definition object %s through %s: %s (indices %r -> %r; %s%s); %d (definition, mode) pairs "
+        statuses.append(ctx.fail(key, "trait definition object %s through %s: %s (indices %r -> %r; %s%s); %d (definition, mode) pairs "
                  "affected: %s" % (
                      r["spec"], r["mode"], CT_CLAUSE.get(code, code), r["idx"], r["idx2"], r.get("diff", ""),
                      (" rc=%s %s" % (r.get("rc"), r.get("stderr", "")[-300:].replace("\n", " | ")))
                      if r.get("crashed") else "", len(rs), ", ".join(sorted({x["spec"] for x in rs}))[:400]),
                  dict(kind="ctrait", spec=r["spec"], mode=r["mode"], sanitized=bool(sanitize), impl_obs=r,
-                      all_affected=sorted({x["spec"] + "/" + x["mode"] for x in rs})))
-    ctx.obligation(label, not law and not corr, "%d (definition, copy mode) pairs; %d law failures, %d model "
-                   "disagreements" % (len(evaluated), len(law), len(corr)))
+                      all_affected=sorted({x["spec"] + "/" + x["mode"] for x in rs}))))
+    unknown = [s for s in statuses if s != "known"]
+    ctx.obligation(label, not unknown and not corr, "%d (definition, copy mode) pairs; %d law failures (%d clauses "
+                   "listed as known findings), %d model disagreements" % (
+                       len(evaluated), len(law), len(statuses) - len(unknown), len(corr)))
     if corr and not law:
         i, code = corr[0]
         r = evaluated[i]
@@ -449,24 +466,24 @@ def run(ctx):
     # --- T3 -------------------------------------------------------------------------------
     t3_ok, t3_data, t3_msg = t3(ctx)
     # --- ledger ---------------------------------------------------------------------------
-    n, maxlen = (700, 10) if ctx.tier == "quick" else (4000, 20)
+    n, maxlen = (700, 10) if ctx.tier == "quick" else (12000, 25)
     cases = corpus() + [gen_case(rnd, ctx, maxlen) for _ in range(n)]
     for c in cases[:1] + cases[-2:]:
         ctx.sample(c)
     ledger_stream(ctx, cases)
     # --- trait definition objects in a subprocess (F9 trigger: validated Property traits) --------
     have_gen = t3_data is not None and os.path.exists(os.path.join(ctx.scratch, "CTablesGen.vo"))
-    ctrait_stream(ctx, t3_data, have_gen)
+    ctrait_stream(ctx, t3_data, have_gen, modes=CT_MODES_C18)
     # --- crash stream -----------------------------------------------------------------------
-    npr, nops = (24, 120) if ctx.tier == "quick" else (80, 200)
+    npr, nops = (24, 120) if ctx.tier == "quick" else (160, 250)
     programs = [dict(index=i, seed=rnd.randrange(1 << 30), n=nops) for i in range(npr)]
     crash_stream(ctx, programs)
     if ctx.tier == "thorough":
         # the same streams on the clang ASan+UBSan build: a report or a dead process is a violation
         ctx.build_impl(sanitize=True)
         crash_stream(ctx, programs, sanitize=True)
-        ctrait_stream(ctx, t3_data, have_gen, sanitize=True)
-        ledger_stream(ctx, cases[:len(corpus())] + cases[-600:], sanitize=True, tag="ledger_asan")
+        ctrait_stream(ctx, t3_data, have_gen, sanitize=True, modes=CT_MODES_C18)
+        ledger_stream(ctx, cases[:len(corpus())] + cases[-2000:], sanitize=True, tag="ledger_asan")
     if not t3_ok:
         if not any(not v[2] for v in ctx.violations):
             ctx.fail("T3/tables", t3_msg, dict(kind="generated-obligation-broken", detail=t3_msg,
